@@ -19,13 +19,13 @@ func init() {
 		ID: "C03", Level: "exploration", Primary: "cases", EvalCount: "requests_routed",
 		Rule: "route tables = every sequence of up to k routes (k=2 quick, 3 thorough) over a 15-spec alphabet (bind; search with base in {unset,dc=a} x filter in {unset,(cn=x)} x scope in {unset,2}; " +
 			"extended A/B/StartTLS-name; modify; add; delete) x {no default, default, default registered twice} x {no unbind route, unbind registered twice}, plus random tables up to length 8 - every tenth one of 13..40 routes - with case variants and scope 1; " +
-			"each table is served on a fresh connection the full 40-request alphabet (bind; search over 3 bases x 3 filters x 3 scopes; six spellings - compact, with blanks next to the comma or at the ends, around an escaped comma - of two-RDN base DNs, which the random tables also use as route bases; extended A/B/C; modify; add; delete) plus Unbind, all pipelined; every seventh table by a server of its own whose empty mux was attached (Server.Router) before the routes were registered, every fifth table is served over a TLS listener, every fifth on a server created WithDisablePanicRecovery, and every other table spells a zero scope out as WithScope(BaseObject); in every fifth table the route handlers (except those of StartTLS-named routes, which run on the read loop) panic right after they have answered. " +
+			"each table is served on a fresh connection the full 40-request alphabet (bind; search over 3 bases x 3 filters x 3 scopes; six spellings - compact, with blanks next to the comma or at the ends, around an escaped comma - of two-RDN base DNs, which the random tables also use as route bases; extended A/B/C; modify; add; delete) plus Unbind, all pipelined; every seventh table by a server of its own whose empty mux was attached (Server.Router) before the routes were registered, every fifth table is served over a TLS listener, every fifth on a server created WithDisablePanicRecovery, and every other table spells a zero scope out as WithScope(BaseObject); in every sixth table the handlers hand the request to a worker that answers after they have returned, in every fourth the routes carry (repeated) labels, in every fifth table the route handlers (except those of StartTLS-named routes, which run on the read loop) panic right after they have answered. " +
 			"Oracle: 15-line reference model (first matching route, else last-registered default, else built-in refusal). distinct_nontrivial = distinct (route-table signature, request, outcome) triples observed",
 		Assume: []string{"re-registering the default or unbind route replaces the earlier registration (last registration wins)"},
 		Phases: func(tier string, seed int64) []Phase {
 			return []Phase{{Name: "tables", Run: c03Tables}, {Name: "goldap-noroute", Run: c03GoLDAP}}
 		},
-		MinObserved: []string{"requests_routed", "outcome/builtin", "outcome/default", "outcome/first_of_several", "outcome/shadowed_later_route", "tables_over_tls", "tables_whose_route_handlers_panic_after_replying", "requests_carrying_controls", "tables_on_a_server_without_panic_recovery", "search_routes_registered_with_an_explicit_zero_scope", "search_routes_with_a_base_dn_of_several_rdns", "tables_whose_routes_were_registered_after_the_mux_was_attached", "tables_with_more_than_twelve_routes"},
+		MinObserved: []string{"requests_routed", "outcome/builtin", "outcome/default", "outcome/first_of_several", "outcome/shadowed_later_route", "tables_over_tls", "tables_whose_route_handlers_panic_after_replying", "requests_carrying_controls", "tables_on_a_server_without_panic_recovery", "search_routes_registered_with_an_explicit_zero_scope", "search_routes_with_a_base_dn_of_several_rdns", "tables_whose_routes_were_registered_after_the_mux_was_attached", "tables_with_more_than_twelve_routes", "tables_whose_handlers_answer_after_they_returned", "tables_whose_routes_share_labels"},
 	})
 }
 
@@ -217,6 +217,17 @@ func c03RunTableOn(c *Ctx, srv *Srv, ctc *tls.Config, t c03Table, reqs []creq, n
 	if panicky {
 		c.Count("tables_whose_route_handlers_panic_after_replying", 1)
 	}
+	// every sixth table's handlers answer asynchronously (from a worker goroutine, after they have returned); every
+	// fourth table labels its routes - with two labels only, so labels repeat (a label is a name for logs, nothing more)
+	async := tableNo%6 == 2 && !panicky
+	labelled := tableNo%4 == 1
+	var asyncWG sync.WaitGroup
+	if async {
+		c.Count("tables_whose_handlers_answer_after_they_returned", 1)
+	}
+	if labelled {
+		c.Count("tables_whose_routes_share_labels", 1)
+	}
 	mk := func(name string, mayPanic bool) gldap.HandlerFunc {
 		return func(w *gldap.ResponseWriter, r *gldap.Request) {
 			o := observe(name, r)
@@ -226,6 +237,17 @@ func c03RunTableOn(c *Ctx, srv *Srv, ctc *tls.Config, t c03Table, reqs []creq, n
 			// the reply names the handler that produced it: the client sees, per
 			// message ID, exactly which handlers ran (also for extended requests,
 			// whose message ID no getter exposes)
+			if async {
+				// the handler hands the request to a worker and returns; the worker answers a moment later (the request
+				// HAS been taken by this handler: nobody else gets to serve or refuse it)
+				asyncWG.Add(1)
+				go func() {
+					defer asyncWG.Done()
+					time.Sleep(2 * time.Millisecond)
+					replyWithDiag(o.Kind, w, r, "H:"+name)
+				}()
+				return
+			}
 			replyWithDiag(o.Kind, w, r, "H:"+name)
 			if panicky && mayPanic {
 				// the handler has answered and now fails (recovered by gldap): the request has been served - by this
@@ -244,11 +266,15 @@ func c03RunTableOn(c *Ctx, srv *Srv, ctc *tls.Config, t c03Table, reqs []creq, n
 				h = mk(fmt.Sprintf("R%d", i), false)
 			}
 			var err error
+			var lab []gldap.Option
+			if labelled {
+				lab = []gldap.Option{gldap.WithLabel(fmt.Sprintf("L%d", i%2))}
+			}
 			switch r.Kind {
 			case "bind":
-				err = m.Bind(h)
+				err = m.Bind(h, lab...)
 			case "search":
-				var opts []gldap.Option
+				opts := append([]gldap.Option{}, lab...)
 				if r.Base != "" {
 					opts = append(opts, gldap.WithBaseDN(r.Base))
 				}
@@ -264,13 +290,13 @@ func c03RunTableOn(c *Ctx, srv *Srv, ctc *tls.Config, t c03Table, reqs []creq, n
 				}
 				err = m.Search(h, opts...)
 			case "ext":
-				err = m.ExtendedOperation(h, gldap.ExtendedOperationName(r.Name))
+				err = m.ExtendedOperation(h, gldap.ExtendedOperationName(r.Name), lab...)
 			case "modify":
-				err = m.Modify(h)
+				err = m.Modify(h, lab...)
 			case "add":
-				err = m.Add(h)
+				err = m.Add(h, lab...)
 			case "delete":
-				err = m.Delete(h)
+				err = m.Delete(h, lab...)
 			}
 			if err != nil {
 				regErr = err
@@ -318,7 +344,10 @@ func c03RunTableOn(c *Ctx, srv *Srv, ctc *tls.Config, t c03Table, reqs []creq, n
 		all = append(all, q.encode()...)
 	}
 	const unbindID = 999999
-	all = append(all, sber.Message(unbindID, sber.UnbindRequest(), nil).Encode()...)
+	unbindFrame := sber.Message(unbindID, sber.UnbindRequest(), nil).Encode()
+	if !async {
+		all = append(all, unbindFrame...)
+	}
 	go cl.Send(all)
 	// read every frame until the server ends the connection
 	type resp struct {
@@ -328,8 +357,27 @@ func c03RunTableOn(c *Ctx, srv *Srv, ctc *tls.Config, t c03Table, reqs []creq, n
 		handlers []string
 	}
 	got := map[int64]*resp{}
+	frames, unbindSent := 0, !async
 	for {
-		msg, err := cl.ReadMsg(patience)
+		if !unbindSent && frames >= len(reqs) {
+			// (asynchronous tables: the Unbind goes out once every request has had an answer and the workers are done,
+			// a moment later - so that an answer too many would still be seen)
+			asyncWG.Wait()
+			time.Sleep(10 * time.Millisecond)
+			cl.Send(unbindFrame)
+			unbindSent = true
+		}
+		wait := patience
+		if !unbindSent {
+			wait = 5 * time.Second
+		}
+		msg, err := cl.ReadMsg(wait)
+		if err != nil && !unbindSent && isTimeout(err) {
+			cl.Send(unbindFrame) // an answer is missing: judged below
+			unbindSent = true
+			continue
+		}
+		frames++
 		if err != nil {
 			if isTimeout(err) {
 				c.Inconclusive("no EOF after the pipeline + unbind on table " + t.sig())
